@@ -579,6 +579,11 @@ def hint_keeps_relation_column_for_plain_field(case, outcome, atoms):
         return atoms
     out = []
     for a in atoms:
+        if a[0] == 'exception' and a[2] == 'AttributeError' and \
+                'change_column_attr_related_model' in str(a[4]):
+            # plain column -> relation: the hint carries related_model, which the
+            # attribute-change dispatcher has no handler for
+            continue
         if a[0] == 'exception' and a[2] == 'AssertionError' and \
                 'related_model cannot be passed in field_attrs' in str(a[4]):
             # ChangeField.simulate left 'related_model' among the field attributes
